@@ -20,6 +20,9 @@ pub enum Mode {
     Typed,
     /// process history: compile ANOTHER program first (`warm_src`); its result is not compared
     Warm,
+    /// through `compile_with_constants(src, consts)`, i.e. with the library's DEFAULT options (main
+    /// only; the step's `opts` are what the defaults are documented to be: SSA, duplicate gates optimised)
+    Default,
 }
 
 #[derive(Clone, Debug, Serialize, Deserialize, PartialEq, Eq)]
@@ -127,6 +130,7 @@ fn run_steps(prog: &ProgSpec, steps: &[Step]) -> Vec<(Outcome, Vec<ProbeRec>)> {
         let o = match s.mode {
             Mode::Src => outcome_of(guarded(|| compile_src(src, &s.fn_name, consts, s.opts, false))).0,
             Mode::Lib => outcome_of(guarded(|| compile_src(src, &s.fn_name, consts, s.opts, true))).0,
+            Mode::Default => outcome_of(guarded(|| garble_lang::compile_with_constants(src, consts).map(|g| g.circuit))).0,
             Mode::Warm => outcome_of(guarded(|| compile_src(src, "main", std::collections::HashMap::new(), Opts { register: false, dedup: true }, false))).0,
             Mode::Typed => {
                 if typed.is_none() {
@@ -239,8 +243,79 @@ pub fn take_discovered_env() -> Vec<String> {
 
 /// A party as a real, fresh OS process: re-executes this binary (`c06-child`), whose main thread
 /// takes the keys from the seam and runs the steps.
+/// A party built with default cargo features in release mode (crate /verif/plain, mode `compile`):
+/// no `serde`, no `verif_hooks`, its hash keys are whatever the OS hands it.
+fn run_plain_party(prog: &ProgSpec, party: &PartySpec) -> Result<Vec<(Outcome, Vec<ProbeRec>)>, String> {
+    use std::io::Write;
+    let miri = party.build.as_deref() == Some("miri32");
+    let exe = if miri {
+        std::path::PathBuf::from(std::env::var("VERIF_MIRI32").map_err(|_| "no miri32 party available (not a C06 run through ./check, or no nightly toolchain)")?)
+    } else {
+        plain_bin().ok_or("no plain build available (not a run through ./check)")?
+    };
+    let mut input = format!("SRC {}\n", hex(prog.src.as_bytes()));
+    for s in &party.steps {
+        if s.mode == Mode::Warm {
+            input.push_str(&format!("WARM {}\n", hex(s.warm_src.as_deref().unwrap_or("").as_bytes())));
+            continue;
+        }
+        input.push_str("CLEAR\n");
+        let order: Vec<usize> = if s.perm.len() == prog.consts.len() { s.perm.clone() } else { (0..prog.consts.len()).collect() };
+        for i in order {
+            let c = &prog.consts[i];
+            input.push_str(&format!("CONST {} {} {} {}\n", c.party, c.name, c.ty, c.val));
+        }
+        input.push_str(&format!("GO {} {} {} {}\n", s.fn_name, s.opts.register as u8, s.opts.dedup as u8, if s.mode == Mode::Default { 2 } else { (s.mode == Mode::Lib) as u8 }));
+    }
+    // miri32: VERIF_MIRI32 is a script that runs /verif/plain under `cargo +nightly miri run --target
+    // i686-unknown-linux-gnu`: the same party on a machine with 32-bit words
+    let mut child = child_command(&exe)
+        .arg("compile")
+        .stdin(std::process::Stdio::piped())
+        .stdout(std::process::Stdio::piped())
+        .stderr(std::process::Stdio::null())
+        .spawn()
+        .map_err(|e| format!("spawn: {e}"))?;
+    let mut stdin = child.stdin.take().unwrap();
+    let writer = std::thread::spawn(move || {
+        let _ = stdin.write_all(input.as_bytes());
+    });
+    let out = child.wait_with_output().map_err(|e| e.to_string())?;
+    let _ = writer.join();
+    if !out.status.success() {
+        return Err(format!("plain party died: {}", out.status));
+    }
+    let text = String::from_utf8_lossy(&out.stdout).to_string();
+    let mut answers = text.lines();
+    let mut res = vec![];
+    for s in &party.steps {
+        if s.mode == Mode::Warm {
+            res.push((Outcome::Ok { digest: "warm".into(), size: 0 }, vec![]));
+            continue;
+        }
+        let l = answers.next().ok_or("plain party: missing answer")?;
+        let o = if let Some(rest) = l.strip_prefix("OK ") {
+            let kind = rest.chars().next().unwrap_or('S');
+            let flat: Vec<u64> = rest[1..].split_ascii_whitespace().filter_map(|t| t.parse().ok()).collect();
+            match unflatten(kind, &flat) {
+                Some(ct) => outcome_of(Ok(Ok(ct))).0,
+                None => return Err("plain party: unreadable circuit".into()),
+            }
+        } else if let Some(class) = l.strip_prefix("ERR ") {
+            Outcome::Err { class: class.to_string(), detail: String::new() }
+        } else {
+            Outcome::Panic { msg: l.strip_prefix("PANIC ").unwrap_or(l).to_string() }
+        };
+        res.push((o, vec![]));
+    }
+    Ok(res)
+}
+
 fn run_process_party(prog: &ProgSpec, party: &PartySpec) -> Result<Vec<(Outcome, Vec<ProbeRec>)>, String> {
     use std::io::Write;
+    if matches!(party.build.as_deref(), Some("plain") | Some("miri32")) {
+        return run_plain_party(prog, party);
+    }
     let exe = match party.build.as_deref() {
         Some("nodebug") => match std::env::var("VERIF_NODEBUG_BIN") {
             Ok(p) if std::path::Path::new(&p).exists() => std::path::PathBuf::from(p),
@@ -258,7 +333,7 @@ fn run_process_party(prog: &ProgSpec, party: &PartySpec) -> Result<Vec<(Outcome,
     };
     let single = World { program: prog.clone(), parties: vec![PartySpec { process: false, ..party.clone() }], concurrent: None };
     let pressure = party.alloc_limit.is_some();
-    let mut child = std::process::Command::new(&exe)
+    let mut child = child_command(&exe)
         .arg("c06-child")
         .env("RUST_BACKTRACE", "0")
         .stdin(std::process::Stdio::piped())
@@ -470,6 +545,8 @@ fn draw_party(p: &mut Prng, fns: &[String], nconsts: usize, light: bool) -> Part
                 Mode::Typed
             } else if f == "main" && p.chance(1, 4) {
                 Mode::Lib
+            } else if f == "main" && !o.register && o.dedup && p.chance(1, 3) {
+                Mode::Default
             } else {
                 Mode::Src
             };
@@ -541,6 +618,9 @@ pub fn make_world(plan: &Plan, seed: u64, idx: u64) -> (World, String, Prng) {
             gen::const_arith_program(&mut p)
         } else if p.chance(1, 25) {
             gen::scaled_program(&mut p)
+        } else if p.chance(1, if plan.tier.generated > 10_000 { 60 } else { 250 }) {
+            // small programs around 64-bit literals, usize and shifts: what a 32-bit party sees differently
+            gen::word_program(&mut p)
         } else {
             gen::program(&mut p)
         };
@@ -693,6 +773,17 @@ pub fn make_world(plan: &Plan, seed: u64, idx: u64) -> (World, String, Prng) {
             // cfg(target_feature = ...) selects other code there
             if family == "big" || p.chance(1, 3) {
                 parties.push(PartySpec { keys, steps: vec![target.clone()], process: true, alloc_limit: None, env_flip: vec![], build: Some("native".into()), cpus: None });
+            }
+            // ... a party on a machine with 32-bit words (the plain crate interpreted by Miri for
+            // i686-unknown-linux-gnu; slow, so only for the small word-size programs)
+            if src.starts_with(gen::WORD_MARKER) {
+                let st = |mode: Mode| Step { fn_name: "main".into(), opts: Opts { register: false, dedup: true }, mode, perm: vec![], cap: 0, warm_src: None, src_offset: 0 };
+                parties.push(PartySpec { keys, steps: vec![st(Mode::Default)], process: true, alloc_limit: None, env_flip: vec![], build: Some("miri32".into()), cpus: None });
+                parties.push(PartySpec { keys, steps: vec![st(Mode::Src), st(Mode::Default)], process: true, alloc_limit: None, env_flip: vec![], build: Some("plain".into()), cpus: None });
+            }
+            // ... and one built with default cargo features in release mode (no serde, no verif_hooks)
+            if family == "big" || p.chance(1, 3) {
+                parties.push(PartySpec { keys, steps: vec![target.clone()], process: true, alloc_limit: None, env_flip: vec![], build: Some("plain".into()), cpus: None });
             }
             if family == "generated" && p.chance(1, 6) {
                 parties.push(PartySpec { keys, steps: vec![target.clone()], process: true, alloc_limit: None, env_flip: vec![], build: Some("devbuild".into()), cpus: None });
@@ -1167,7 +1258,7 @@ pub fn fidelity(plan: &Plan, seed: u64, n: u64) -> Result<(u64, u64), String> {
             continue;
         };
         let want: Vec<String> = fidelity_view(outs);
-        let mut child = std::process::Command::new(&exe)
+        let mut child = child_command(&exe)
             .arg("c06-child")
             .env("RUST_BACKTRACE", "0")
             .stdin(std::process::Stdio::piped())
